@@ -137,6 +137,52 @@ def mutatedNames (h h' : AHeap) (named : List (String × Fld)) : List String :=
     (if sameBuf h h' (2 * k) (p.2.mesh.n ++ [p.2.nvdim]) then [] else [p.1 ++ ".array"]) ++
     (if sameBuf h h' (2 * k + 1) p.2.mesh.n then [] else [p.1 ++ ".valid"]))
 
+/-- which plot method a direct call uses -/
+def kindOfStr : String → R Kind
+  | "scalar" => pure .scalar
+  | "contour" => pure .contour
+  | "vector" => pure .vector
+  | "lightness" => pure .lightness
+  | "default" => pure .default
+  | k => throw s!"unknown plot kind {k}"
+
+/-- one direct call of a heap session: the field, the filter and the colour / lightness field are
+INDICES into the session's list of fields (field `k` has its arrays at addresses `2k`, `2k+1`) -/
+def hreqOfJson (fields : List Fld) (j : Json) : R (HReq × Fld × List (Option String)) := do
+  let kind ← kindOfStr (← strOfJson (← fld j "kind"))
+  let fi ← natOfJson (← fld j "field")
+  let f ← match fields[fi]? with
+    | some f => pure f
+    | none => throw "hsession: field index out of range"
+  let hf (k : Nat) : R HFld := match fields[k]? with
+    | some g => pure (hfldOf g (2 * k))
+    | none => throw "hsession: field index out of range"
+  let filter ← match ← optNat j "filter" with
+    | none => pure none
+    | some k => some <$> hf k
+  let aux ← match ← optNat j "aux" with
+    | none => pure none
+    | some k => some <$> hf k
+  let mult ← match fldOpt j "mult" with
+    | none => pure none
+    | some v => some <$> ratOfJson v
+  let vdimsArg ← optStrList j "vdims_arg"
+  let useColor ← match fldOpt j "use_color" with
+    | none => pure true
+    | some v => boolOfJson v
+  let clim ← match fldOpt j "clim" with
+    | none => pure none
+    | some v => do
+      let l ← listOf ratOfJson v
+      match l with
+      | [a, b] => pure (some (a, b))
+      | _ => throw "clim must have two entries"
+  let pick ← match fldOpt j "pick" with
+    | none => pure 0
+    | some v => natOfJson v
+  let vd := match vdimsArg with | some l => l | none => inplaneVdims f
+  pure ({ kind, field := hfldOf f (2 * fi), opts := { mult, filter, aux, vdimsArg, useColor, pick }, clim }, f, vd)
+
 end C20J
 
 open C20J in
@@ -175,7 +221,10 @@ def c20 (op : String) (j : Json) : Option (R Json) :=
         | k => throw s!"unknown plot kind {k}"
       let vd := match o.vdimsArg with | some l => l | none => inplaneVdims f
       let mj := match setupMultiplier f o.mult with | .ok m => ratToJson m | .error _ => .null
-      let out := ((resJ (listJ callJ) res).setObjVal! "leftover" (strsJ (leftover f vd))).setObjVal! "mult" mj
+      -- matplotlib's own precondition on the arguments handed over (contour: Z at least 2 x 2)
+      let mplOk := match res with | .ok calls => callsAccepted calls | .error _ => true
+      let out := (((resJ (listJ callJ) res).setObjVal! "leftover" (strsJ (leftover f vd))).setObjVal! "mult" mj).setObjVal!
+        "mpl_ok" (Json.bool mplOk)
       -- the same request on the heap model (arrays as objects): result and which input arrays changed
       let named : List (String × Fld) := [("field", f)] ++
         (match o.filter with | some g => [("filter", g)] | none => []) ++
@@ -213,6 +262,30 @@ def c20 (op : String) (j : Json) : Option (R Json) :=
         -- the caller's dictionaries after the session: which keys they hold
         ("keys", listJ (fun k => strsJ k.keys) (out.1.take dicts.length)),
         ("nstore", Json.num (JsonNumber.fromNat out.1.length))])
+  | "hsession" => some do
+      -- a history of DIRECT method calls (scalar / contour / vector / lightness / mpl()) that share field
+      -- objects: all arrays live on one heap, the calls run one after the other on it
+      let fields ← listOf fldOfJson (← fld j "fields")
+      let reqs ← listOf (hreqOfJson fields) (← fld j "reqs")
+      let sq : Rat → Rat := fun q => (ratSqrt? q).getD 0
+      -- exact square roots only (|v| of 2-component fields is the default lightness)
+      if reqs.any (fun (r, f, _) => r.kind == .lightness && f.nvdim == 2 && r.opts.aux.isNone &&
+          f.data.toList.any (fun v => (ratSqrt? (normSq v)).isNone)) then
+        throw "lightness of a 2-component field: |v| is not rational in some cell"
+      let h0 := heapOf fields
+      let out := runHeapSession sq h0 (reqs.map (·.1))
+      let named := fields.zipIdx.map fun (f, k) => (s!"f{k}", f)
+      let mults := reqs.map fun (r, f, _) =>
+        match setupMultiplier f r.opts.mult with | .ok m => ratToJson m | .error _ => .null
+      let lefts := reqs.map fun (_, f, vd) => strsJ (leftover f vd)
+      let accepted := out.2.map fun r => Json.bool (match r with | .ok calls => callsAccepted calls | .error _ => true)
+      pure (Json.mkObj [
+        ("results", listJ (resJ (listJ callJ)) out.2),
+        ("mults", .arr mults.toArray),
+        ("leftovers", .arr lefts.toArray),
+        ("mpl_ok", .arr accepted.toArray),
+        ("mutated", strsJ (mutatedNames h0 out.1 named)),
+        ("nheap", Json.num (JsonNumber.fromNat out.1.length))])
   | _ => none
 
 end DFV.Drv
